@@ -43,9 +43,49 @@ def sortkind_cases():
     return out
 
 
+def loopvar_stage(c, asan):
+    """QLoopVar: the binding of a reference to an enclosing loop - model (and the two rejected scanner variants) and the real engine on
+    every stack of up to 3 loops (names up to 2 units over a, b, or no value=) x every reference `id` / `id[k]` of the model's domain"""
+    import itertools
+    r = c.tlc("QLoopVar", "QLoopVar_current", timeout=900, workers=8)
+    c.expect_holds(r, "QLoopVar: Agree (outward walk = innermost loop of that name, on delimited references)")
+    for cfg in ("QLoopVar_empty-name-captures", "QLoopVar_stops-at-longer-name"):
+        r = c.tlc("QLoopVar", cfg, timeout=900, workers=4)
+        if not r.violated:
+            raise vf.MachineryError("%s: the earlier / seeded scanner behaviour is not rejected" % cfg)
+    unit = {1: "a", 2: "b"}
+    names = [()] + [(x,) for x in (1, 2)] + [(x, y) for x in (1, 2) for y in (1, 2)]
+    ids = [n for n in names if n]
+    refs = [i for i in ids] + [i + (3, k) for i in ids for k in (1, 2)]
+    vj = '{"s1":["L1"],"s2":["L2"],"s3":["L3"]}'
+    p_in = os.path.join(c.out, "loopvar.txt")
+    n = 0
+    with open(p_in, "w") as f:
+        for depth in range(0, 4):
+            for stack in itertools.product(names, repeat=depth):
+                for ref in refs:
+                    reftext = "".join(unit.get(u, "[") for u in ref) + ("]" if 3 in ref else "")
+                    text = ""
+                    for i, nm in enumerate(stack):
+                        text += '<loop set="s%d"%s>' % (i + 1, (' value="%s"' % "".join(unit[u] for u in nm)) if nm else "")
+                    text += "{var:%s}" % reftext + "</loop>" * depth
+                    meta = {"fam": "loopvar", "loops": [list(nm) for nm in stack], "ref": list(ref)}
+                    f.write(",".join(str(ord(ch)) for ch in text) + "\t" + ",".join(str(ord(ch)) for ch in vj) + "\t" + json.dumps(meta, separators=(",", ":")) + "\n")
+                    n += 1
+    p_out = os.path.join(c.out, "loopvar.ndjson")
+    crashes = walk.run_cases(c, asan, "render", p_in, p_out, "template-loopvar")
+    c.stage("loopvar", cases=n, crashes=crashes)
+    if os.path.exists(p_out) and os.path.getsize(p_out):
+        c.oracle("OracleLoopVar", p_out, "OracleLoopVar", lambda e: "template loop-variable binding: loops=%s ref=%s template=%r -> out=%r" % (
+            e["meta"]["loops"], e["meta"]["ref"], "".join(chr(u) for u in e["t"]), "".join(chr(u) for u in e["out"])), timeout=1500)
+        os.remove(p_out)
+    os.remove(p_in)
+
+
 def main():
     c = vf.Check("C02")
     (asan,) = c.build("h_template.asan")
+    loopvar_stage(c, asan)
     n = 24000 if c.thorough else 6000
     cases = []
     for i in range(n):
